@@ -9,6 +9,7 @@ R4  failed bank load is atomic: no state store precedes a failing return of Load
 R5  error text: failing loads leave a non-empty error text (literal or fallback in the wrapper).
 """
 import collections
+import re
 from ..core import *
 from ..logic import *
 from ..effects import *
@@ -22,6 +23,7 @@ RULES = [
     Rule('C18.R3', 'getter reads a field the matching setter (transitively) stores', 6),
     Rule('C18.R4', 'a failing bank load stores nothing into synth/setup state before returning', 8),
     Rule('C18.R5', 'every failing path of the four loaders leaves a non-empty error text', 4),
+    Rule('C18.R6', 'a callback slot and its user-data slot are re-wired from a matching pair', 12),
 ]
 EXPLANATION = ('Static CFG + store/mutation-summary analysis of the exported functions of opnmidi.cpp and the player functions they reach: '
                'stores are resolved to fields through reference/pointer locals; a call counts as a store when the callee transitively '
@@ -483,4 +485,42 @@ def analyse(facts, tier):
                                 ok = True
             obls.append(Obl('C18.R5', name, 'return -1', fst['loc'], 'discharged' if ok else 'finding',
                             why='non-empty error text is stored (literal, or fallback when the loader left none)' if ok else 'failing return without a non-empty error text'))
+    obls += r6_pairs(facts)
     return obls
+
+
+
+def _slot_base(name):
+    n = short(name)
+    n = re.sub(r'(_userData|UserData|HookData|Data)$', '', n)
+    n = re.sub(r'^m_', '', n)
+    n = re.sub(r'^on', '', n, flags=re.I)
+    n = re.sub(r'Hook$', '', n)
+    return n.lower()
+
+
+def r6_pairs(facts):
+    """registered callbacks persist across resets: wherever the sequencer interface is re-wired, the user-data slot of a callback is copied
+    from the user-data member that belongs to the same callback (onloopEnd_userData <- onLoopEnd_userData / m_loopEndHookData)"""
+    from .. import e2prog
+    out = []
+    for fn in facts.all_fns():
+        if fn.relfile() not in e2prog.CORE_FILES or fn.tree is None:
+            continue
+        for b, j, st in fn.cfg.stmts():
+            for x in walk(st['s']):
+                ap = assign_parts(x)
+                if not ap:
+                    continue
+                t, r = strip(ap[0]), strip(ap[1])
+                if t.get('k') != 'MemberExpr' or not re.search(r'(_userData|UserData|HookData)$', short(t['n'])):
+                    continue
+                if r.get('k') != 'MemberExpr' or not re.search(r'(_userData|UserData|HookData|Data)$', short(r['n'])):
+                    continue
+                ok = _slot_base(t['n']) == _slot_base(r['n'])
+                out.append(Obl('C18.R6', fn.name, '%s = %s' % (short(t['n']), short(r['n'])), st['loc'], 'discharged' if ok else 'finding',
+                               why='user data of the same callback' if ok else
+                               'the user-data slot of one callback is wired to the user data registered for another: after this reset the callback fires with a foreign pointer'))
+    if len(out) < 12:
+        raise build.AnalysisBroken('C18.R6: only %d callback user-data re-wirings found' % len(out))
+    return out
